@@ -98,7 +98,7 @@ fn closed_form_lm(p: &BTreeMap<String, String>, red: (f64, f64), lm: bool) -> Ex
     if p.get("aux").map(|s| s.as_str()) == Some("prop+out") && !matches!(mix, "joule" | "hp25" | "hp4" | "hp25_excluded" | "hp25_excluded2" | "red1" | "red2" | "biomass" | "dens") {
         return Expect::NoClosedForm;
     }
-    if matches!(mix, "biomass+gas_noout" | "biomass+joule_noout") {
+    if matches!(mix, "biomass+gas_noout" | "biomass+joule_noout" | "2biomass_oneout+gas_noout") {
         return Expect::Error;
     }
     // thermal part
@@ -115,6 +115,9 @@ fn closed_form_lm(p: &BTreeMap<String, String>, red: (f64, f64), lm: bool) -> Ex
         "red1" => dsum * ratio("RED1", red),
         "red2" => dsum * ratio("RED2", red),
         "red1_40+solar60" => 0.6 * dsum + 0.4 * dsum * ratio("RED1", red),
+        "red1_50+biomass50" => 0.5 * dsum * ratio("RED1", red) + 0.5 * dsum * ratio("BIOMASA", red),
+        "biofuel" => 0.0,
+        "solar40+biofuel" => 0.4 * dsum,
         "red2_50+hp4_50" => 0.5 * dsum * 0.75 + 0.5 * dsum * ratio("RED2", red),
         "red1_25+red2_25+solar50" => 0.5 * dsum + 0.25 * dsum * ratio("RED1", red) + 0.25 * dsum * ratio("RED2", red),
         "biomass" => dsum * ratio("BIOMASA", red),
@@ -199,6 +202,23 @@ impl StateCheck for C15 {
                 (Expect::Error, Err(_)) => out.regime(format!("error:{}", p.get("demand").map(|s| s.as_str()).filter(|s| !s.starts_with("given")).unwrap_or(mix.as_str()))),
                 (Expect::Error, Ok(g)) => out.viol("non_computable_case_reports_error", &feats, &cfg, format!("{g}"), "an error instead of a number"),
                 (Expect::NoClosedForm, _) => out.regime("no_closed_form"),
+            }
+            // user factors given on top of a factor set read from a saved file (which has RED1 / RED2 lines already)
+            if ru.is_some() {
+                if let Some(fs2) = subj::reg_user_from_text("PENINSULA", ru, ru) {
+                    if let Ok(g2) = fraction(text, &fs2, 0.0, out) {
+                        out.compared += 1;
+                        out.regime("user_factors_over_saved_file");
+                        let same2 = match (&got, &g2) {
+                            (Ok(x), Ok(y)) => (x - y).abs() <= 1e-4,
+                            (Err(_), Err(_)) => true,
+                            _ => false,
+                        };
+                        if !same2 {
+                            out.viol("same_with_user_factors_over_a_saved_factor_file", &feats, &cfg, format!("{g2:?}"), format!("{got:?}"));
+                        }
+                    }
+                }
             }
             if let Ok(g) = &got {
                 if !(*g >= -1e-4 && *g <= 1.0 + 1e-4) && !matches!(exp, Expect::Error) {
@@ -358,6 +378,13 @@ fn slots(d: &[f64], demand_kind: &'static str, rich: bool) -> Vec<Vec<Letter>> {
             "gas+biomass_out_heats",
             vec![u(Some(1), "ACS", "BIOMASA", &cv(&sc(0.625))), o(1, "ACS", &cv(&sc(0.5))), u(Some(1), "CAL", "BIOMASA", &cv(&sc(2.0))), o(1, "CAL", &cv(&sc(1.5))), u(Some(2), "ACS", "GASNATURAL", &cv(&sc(0.5))), o(2, "ACS", &cv(&sc(0.5)))],
         ),
+        // district network with (by default) no renewable share beside biomass without declared output: all nearby
+        m("red1_50+biomass50", vec![u(Some(1), "ACS", "RED1", &cv(&sc(0.5))), u(Some(2), "ACS", "BIOMASA", &cv(&sc(0.625)))]),
+        // liquid biofuel is not a nearby carrier: no renewable share for the indicator
+        m("biofuel", vec![u(Some(1), "ACS", "BIOCARBURANTE", &cv(&sc(1.25)))]),
+        m("solar40+biofuel", vec![u(Some(1), "ACS", "TERMOSOLAR", &cv(&sc(0.4))), u(Some(2), "ACS", "BIOCARBURANTE", &cv(&sc(0.75)))]),
+        // two biomass boilers, only one with declared output, beside gas: not computable
+        m("2biomass_oneout+gas_noout", vec![u(Some(1), "ACS", "BIOMASA", &cv(&sc(0.3125))), o(1, "ACS", &cv(&sc(0.25))), u(Some(3), "ACS", "BIOMASA", &cv(&sc(0.3125))), u(Some(2), "ACS", "GASNATURAL", &cv(&sc(0.5)))]),
         m("biomass+gas_noout", vec![u(Some(1), "ACS", "BIOMASA", &cv(&sc(0.625))), u(Some(2), "ACS", "GASNATURAL", &cv(&sc(0.5)))]),
         m("biomass+joule_noout", vec![u(Some(1), "ACS", "BIOMASA", &cv(&sc(0.625))), u(Some(2), "ACS", "ELECTRICIDAD", &cv(&sc(0.5)))]),
     ];
